@@ -26,7 +26,7 @@ RULE = ("(A) generated definition/use programs (random DAGs over <=9 names with 
         "Model.LazyEval.lazy_run and final_run; the Gallina move_def is compared with the harness's on the same programs. "
         "(B) metamorphic on the real code: every/sampled placement move_def(p,i,j) and permute_defs of the movable top-level "
         "definitions of proggen programs (1-2 files, includes), of 'name = expr' lines of the 21 practice-corpus programs, and "
-        "chain x use-position programs (uses in .byte .word immediates index words absolute operands .blkb .blkw .repeat counts "
+        "label-difference programs (.blkb/.blkw/.repeat counts and '. =' skips whose operand is a symbol chain ending in a difference of labels defined later, definitions placed anywhere), chain x use-position programs (uses in .byte .word immediates index words absolute operands .blkb .blkw .repeat counts "
         ".link '. =' .align trap/emt fields string codes); bytes, base, outcome class must be equal. "
         "non-trivial = a distinct (program, moved definition, target position) whose definition is referenced by the program")
 LEVEL_TEXT = ("Coq theorems on Model/LazyEval.v, for definition tables and expressions of any size: monotonicity of speculative "
@@ -253,7 +253,7 @@ def part_model(rep, rng, tier):
     terms, keep = [], []
     for (kind, ss, lk), o in zip(cases, outs):
         rep.add_eval()
-        rep.count("model:" + kind.split("-")[0] + ("+link" if lk else "") + ":" + o["outcome"])
+        rep.count("model:" + kind.split("-")[0].replace("+link", "") + ("+link" if lk else "") + ":" + o["outcome"])
         t, py = obs_of(o)
         if t is None:
             rep.violate(f"model-case:{o['outcome']}:{(o.get('crash') or {}).get('frame')}",
@@ -608,6 +608,57 @@ def shadow_groups(rng, tier):
     return groups
 
 
+# B3c: eagerly sized statements whose operand is a chain of symbols ending in a difference of labels defined later
+def labeldiff_groups(rng, tier):
+    groups = []
+    sized = [("blkb", ".blkb {K}"), ("blkw", ".blkw {K}"), ("repeat", ".repeat {K} {{ .byte 1 }}\n.even"),
+             ("skip", ". = . + {K}"), ("blkb-expr", ".blkb {K} - 1 + 1"), ("word+blkb", ".word {K}\n.blkb {K}")]
+    shapes = [
+        ("direct", ["K = A - B", "A = e", "B = s"], "K"),
+        ("chain", ["K = K1", "K1 = K2 + 0", "K2 = A - B", "A = e", "B = s"], "K"),
+        ("inline", ["A = e"], "A - s"),
+        ("half", ["A = e", "K = A - s"], "K"),
+        ("scaled", ["K = <A - B> / 2", "A = e", "B = s"], "K"),
+    ]
+    per = 14 if tier == "quick" else 120
+    for sname, stmt in sized:
+        for link in (False, True):
+            if sname == "skip" and not link:
+                continue
+            for shname, defs, kexpr in shapes:
+                body = stmt.replace("{{", "{").replace("}}", "}").replace("{K}", kexpr).split("\n")
+                skel = ([".link 2000"] if link else []) + ["nop"] + body + ["s: .word 1, 2", "e:", ".word e, s"]
+                # slots: before line k of the skeleton (k = 0..len), never between '.link' and the top
+                lo = 1 if link else 0
+                nslots = len(skel) + 1
+
+                def build(assign):
+                    """assign: list of (slot, def) in the order they are emitted within a slot"""
+                    out = []
+                    for k in range(nslots):
+                        for sl, d in assign:
+                            if sl == k:
+                                out.append(d)
+                        if k < len(skel):
+                            out.append(skel[k])
+                    return "\n".join(out) + "\n"
+                base = build([(nslots - 1, d) for d in defs])
+                variants = []
+                seen = set()
+                total = (nslots - lo) ** len(defs)
+                for _ in range(per if total > per else total * 2):
+                    order = list(defs)
+                    rng.shuffle(order)
+                    assign = [(rng.randrange(lo, nslots), d) for d in order]
+                    text = build(assign)
+                    if text in seen or text == base:
+                        continue
+                    seen.add(text)
+                    variants.append((" | ".join(f"{d}@{sl}" for sl, d in assign), [("t.mac", text)], None))
+                groups.append({"key": f"labeldiff:{sname}:{'link' if link else 'nolink'}:{shname}", "base": ([("t.mac", base)], None), "variants": variants})
+    return groups
+
+
 # B4: the known finding (bare-name statement = implicit .word, looked up at walk time)
 def implicit_word_groups():
     g = []
@@ -640,7 +691,10 @@ def metamorphic(rep, rng, tier, scale=1):
     g3b = shadow_groups(rng, tier)
     bad = run_pairs(rep, "shadow", g3b, watchdog=8)
     report_bad(rep, "shadow", bad)
-    g3 = g3 + g3b
+    g3c = labeldiff_groups(rng, tier)
+    bad = run_pairs(rep, "labeldiff", g3c, watchdog=8)
+    report_bad(rep, "labeldiff", bad)
+    g3 = g3 + g3b + g3c
     g4 = implicit_word_groups()
     bad = run_pairs(rep, "implicit-word", g4)
     report_bad(rep, "implicit-word", bad, known_sig=lambda g, d: "implicit-word-order")
